@@ -27,7 +27,7 @@
 EXTENDS Integers, Sequences, FiniteSets, TLC
 
 CONSTANTS
-  Cfgs,        \* set of server configurations [dk, maxReqs, rmu, viaServe, keepHij, perIP]
+  Cfgs,        \* set of server configurations [dk, maxReqs, rmu, viaServe, keepHij, perIP, busy]
   Reqs,        \* menu of request records the client may send
   MaxBatches,  \* number of client writes
   MaxPerBatch, \* pipelined requests per write
@@ -93,11 +93,21 @@ Init ==
 
 \* Serve reports StateNew when it accepts; ServeConn is handed the connection by the caller
 Accept ==
-  /\ phase = "accepted"
+  /\ phase = "accepted" /\ ~cfg.busy
   /\ phase' = "wait"
   /\ states' = Append(states, "new")
   /\ log' = Append(log, <<"s", "new", 0>>)
   /\ UNCHANGED <<cfg, wire, batches, cur, n, resps, disp, sentCount, srvClosed, cliClosed, cliStalled, hij>>
+
+\* the server is at its Concurrency limit: the connection is reported (StateNew), answered
+\* with 503 and closed (StateClosed) without ever being served
+RejectBusy ==
+  /\ phase = "accepted" /\ cfg.busy
+  /\ phase' = "closed" /\ srvClosed' = TRUE
+  /\ states' = <<"new", "closed">>
+  /\ resps' = <<[status |-> 503, conn |-> "close"]>>
+  /\ log' = <<<<"s", "new", 0>>, <<"s", "closed", 0>>>>
+  /\ UNCHANGED <<cfg, wire, batches, cur, n, disp, sentCount, cliClosed, cliStalled, hij>>
 
 \* the client writes a batch of 1..MaxPerBatch requests in one write; it only writes while the
 \* server is waiting for input with nothing pending (so that executions are replayable)
@@ -218,7 +228,7 @@ Respond ==
   /\ UNCHANGED <<cfg, wire, batches, cur, n, disp, sentCount, cliClosed, cliStalled>>
 
 Next ==
-  \/ Accept
+  \/ Accept \/ RejectBusy
   \/ \E k \in 1..MaxPerBatch : \E b \in [1..k -> Reqs] : ClientSend(b)
   \/ ClientClose \/ ClientStall \/ SrvTimeout \/ HeadTimeout \/ SrvSeesEnd \/ FirstByte \/ HeadBad \/ HeadOk \/ Handler \/ Respond
 
